@@ -1,13 +1,13 @@
 package chk
 
 import (
-	"sync"
 	"fmt"
 	"go/constant"
 	"go/token"
 	"go/types"
 	"sort"
 	"strings"
+	"sync"
 
 	"golang.org/x/tools/go/ssa"
 )
@@ -184,14 +184,14 @@ func findBracket(p *Program, fn *ssa.Function, acq, rel *ssa.Function) (*bracket
 
 func lockRules() []*Rule {
 	return []*Rule{
-		{ID: "LOCK-1", Props: []string{"C06", "C07", "C08", "C17", "C19"}, Min: 6,
+		{ID: "LOCK-1", Props: []string{"C06", "C07", "C08", "C17", "C19", "C01", "C02", "C03", "C04"}, Min: 6,
 			Doc: "every exported method of *sqlittle.DB that reaches a page read brackets it: RLock error returned, defer RUnlock on the same handle dominates every page-reaching call, no early unlock, no nested lock",
 			Run: runLock1},
 		{ID: "LOCK-2", Props: []string{"C06", "C19"}, Min: 5,
 			Doc: "who-may-call: Database.RUnlock is called only by bracket defers; the driver reaches page reads only through bracketed methods of sqlittle.DB (and Open)",
 			Run: runLock2},
-		{ID: "LOCK-3", Props: []string{"C06", "C08", "C07", "C09", "C15"}, Min: 1,
-			Doc: "Database.RLock marks the handle dirty on every path that can return nil",
+		{ID: "LOCK-3", Props: []string{"C06", "C08", "C07", "C09", "C15"}, Min: 2,
+			Doc: "Database.RLock marks the handle dirty on every path that can return nil, and runs nothing of the module before the pager's lock is requested (no validation outside the lock)",
 			Run: runLock3},
 		{ID: "PAGER", Props: []string{"C06", "C07", "C17", "C19"}, Min: 12,
 			Doc: "unix pager: pending byte then shared range, both F_RDLCK via non-blocking F_SETLK, both errors returned, pending released by defer on all exits, readLock stored only after success; RUnlock unlocks the stored range and clears it; byte ranges equal SQLite's",
@@ -603,6 +603,39 @@ func runLock3(c *Ctx) {
 		return
 	}
 	c.Pass(p.FnKey(rlock), rlock.Pos(), "dirty=true is stored on the receiver on every path to a possibly-nil return")
+	// … and the mark is still there when the lock is held: nothing of the module runs in RLock before the pager's lock
+	// has been asked for (a header or journal check made here is made without the lock, and clears the mark, so the
+	// transaction that follows trusts what was read before it began)
+	isPagerLock := func(in ssa.Instruction) bool {
+		cs, ok := in.(ssa.CallInstruction)
+		return ok && cs.Common().IsInvoke() && cs.Common().Method.Name() == "RLock"
+	}
+	hasLock := false
+	for _, in := range instrs(rlock) {
+		if isPagerLock(in) {
+			hasLock = true
+		}
+	}
+	if !hasLock {
+		c.Undecided(p.FnKey(rlock)+" before the lock", rlock.Pos(), "no call of the pager's RLock found in Database.RLock")
+		return
+	}
+	early := cfgQuery{avoid: isPagerLock, goal: func(in ssa.Instruction) bool {
+		cs, ok := in.(ssa.CallInstruction)
+		if !ok {
+			return false
+		}
+		if cs.Common().IsInvoke() {
+			return true
+		}
+		cal := cs.Common().StaticCallee()
+		return cal == nil || p.InModule(cal)
+	}}.firstHit(rlock.Blocks[0], 0)
+	if early != nil {
+		c.Fail(p.FnKey(rlock)+" before the lock", early.Pos(), "%s runs before the pager's lock is requested: what it reads and validates (header, journal, caches) is read without the SHARED lock, and a writer that commits — or dies — between that check and the lock goes unnoticed for the whole transaction", calleeName(p, early.(ssa.CallInstruction)))
+	} else {
+		c.Pass(p.FnKey(rlock)+" before the lock", rlock.Pos(), "nothing of the module runs in Database.RLock before the pager's lock is requested")
+	}
 }
 
 // ---- unix pager ----------------------------------------------------------------------------
@@ -763,16 +796,15 @@ func isFcntlWrapper(p *Program, fn *ssa.Function) bool {
 	return true
 }
 
-
 // lockReq is one request made through (*filePager).lock on a path: the Flock_t's fields as they are when the call is
 // made (path-sensitive, through helpers, constructors and deferred functions), which struct it is, and the call.
 type lockReq struct {
 	typ, start, length, whence int64
-	cmd                         int64
-	haveRange                   bool
-	obj                         string // identity of the Flock_t
-	errTerm                     string
-	call                        posInstr
+	cmd                        int64
+	haveRange                  bool
+	obj                        string // identity of the Flock_t
+	errTerm                    string
+	call                       posInstr
 }
 
 // posInstr is an instruction reported at another position (the call site of the helper it sits in).
@@ -866,7 +898,8 @@ func runPagerPaths(c *Ctx, rl, ru *ssa.Function, lk map[*ssa.Function]bool, fRDL
 	}
 	retIsNil := func(lp *LPath) bool {
 		v := lp.PS.Resolve(lp.Exit.Results[0])
-		return isNilConst(v) || lp.Holds(t.Term(v, lp.PS), token.EQL, "nil")
+		// (named from the result as written: a helper's result keeps the name of the instance that produced it)
+		return isNilConst(v) || lp.Holds(t.Term(lp.Exit.Results[0], lp.PS), token.EQL, "nil") || lp.Holds(t.Term(v, lp.PS), token.EQL, "nil")
 	}
 	storesReadLock := func(lp *LPath) []Event {
 		var out []Event
